@@ -329,6 +329,12 @@ def apply_op(w, op):
                 from hl7apy.factories import datatype_factory
                 obj = datatype_factory(dt, val, w.v, 2)
             bad = op.get('bad', 0)
+            if op.get('hl') and not bad and dt in ('ST', 'TX', 'FT') and len(val) >= 2 and val.isalnum():
+                # a textual object with a highlighted first character: the element encodes the highlight markers
+                obj = T.lib(w.v).BASE_DATATYPES[dt](val, highlights=[(0, 1)])
+                setattr(el, w.spelled(name, op.get('spell', 'name')), obj)
+                _model_set(w, name, 0, '\\H\\' + val[:1] + '\\N\\' + val[1:])
+                return [], kind
             if bad == 1:
                 # an object built elsewhere (TOLERANT) holding one character more than the datatype allows
                 mx = getattr(obj, 'max_length', None)
@@ -576,6 +582,7 @@ def op_for(draw, cell):
         op['spell'] = draw(st.sampled_from(SPELLS))
     if kind == 'set_datatype':
         op['bad'] = draw(st.sampled_from([0, 0, 1, 2]))
+        op['hl'] = draw(st.booleans())
     if kind in ('setidx', 'delidx', 'remove', 'set_at', 'move'):
         op['i'] = draw(st.integers(-4, 3))
     if kind == 'move':
